@@ -451,6 +451,8 @@ func runC19(r *hk.Run) {
 	runLive(r, e, rng, r.Scale(60, 1500))
 	runProxyRotation(r, e, rng, r.Scale(40, 1000))
 	runRequestDump(r, e, rng, r.Scale(40, 1000))
+	runConnectRotation(r, e, rng, r.Scale(40, 1000))
+	runDigestForm(r, e, rng, r.Scale(20, 400))
 	n := r.Scale(320, 8000)
 	for i := 0; i < n; i++ {
 		ln := 25
